@@ -223,20 +223,24 @@ func TestVerifCodecNeg(t *testing.T) {
 
 		// ---- (2) public API: SetRemoteDescription on a real PeerConnection
 		if v.API {
-			vnPublic(t, tr, v, local, remote, text, sig)
+			vnPublic(t, tr, v, remote, text, sig)
 		}
 	}
 }
 
-func vnPublic(t *testing.T, tr *vkTrace, v vnVector, local map[RTPCodecType][]RTPCodecParameters,
-	remote map[RTPCodecType][]vnCodec, text, sig string,
-) {
+func vnPublic(t *testing.T, tr *vkTrace, v vnVector, remote map[RTPCodecType][]vnCodec, text, sig string) {
 	t.Helper()
 	pc, err := NewAPI(WithMediaEngine(vnRegister(v))).NewPeerConnection(Configuration{})
 	if err != nil {
 		t.Fatalf("NewPeerConnection: %v", err)
 	}
 	defer func() { _ = pc.Close() }()
+	// the codecs this PeerConnection has registered: NewAPI's default interceptors add feedback
+	// (nack, nack pli, transport-cc) to the registered codecs, so they are read back
+	local := map[RTPCodecType][]RTPCodecParameters{
+		RTPCodecTypeAudio: append([]RTPCodecParameters{}, pc.api.mediaEngine.audioCodecs...),
+		RTPCodecTypeVideo: append([]RTPCodecParameters{}, pc.api.mediaEngine.videoCodecs...),
+	}
 	pre := []string{}
 	if v.Pre {
 		for _, k := range vnKinds {
@@ -253,29 +257,27 @@ func vnPublic(t *testing.T, tr *vkTrace, v vnVector, local map[RTPCodecType][]RT
 	if err := pc.SetRemoteDescription(SessionDescription{Type: SDPTypeOffer, SDP: text}); err != nil {
 		errText = err.Error()
 	}
+	kinds := []vkM{}
+	for _, k := range []RTPCodecType{RTPCodecTypeVideo, RTPCodecTypeAudio} {
+		kinds = append(kinds, vkM{"kind": k.String(), "present": len(remote[k]) > 0, "local": vnList(local[k]),
+			"remote": vnCodecsToM(remote[k]), "neg": []vkM{}})
+	}
 	uses := []vkM{}
 	for _, tv := range pc.GetTransceivers() {
 		k := tv.Kind()
-		base := vkM{"kind": k.String(), "present": len(remote[k]) > 0, "mid": tv.Mid(),
-			"local": vnList(local[k]), "remote": vnCodecsToM(remote[k])}
 		if r := tv.Receiver(); r != nil {
-			u := vkM{"src": "receiver", "codecs": vnList(r.GetParameters().Codecs)}
-			for key, val := range base {
-				u[key] = val
-			}
-			uses = append(uses, u)
+			uses = append(uses, vkM{"kind": k.String(), "mid": tv.Mid(), "src": "receiver",
+				"codecs": vnList(r.GetParameters().Codecs)})
 		}
 		if s := tv.Sender(); s != nil {
-			u := vkM{"src": "sender", "codecs": vnList(s.GetParameters().Codecs)}
-			for key, val := range base {
-				u[key] = val
-			}
-			uses = append(uses, u)
+			uses = append(uses, vkM{"kind": k.String(), "mid": tv.Mid(), "src": "sender",
+				"codecs": vnList(s.GetParameters().Codecs)})
 		}
 	}
 	mode := "fromoffer"
 	if v.Pre {
 		mode = "pre"
 	}
-	tr.Emit(vkM{"ev": "api", "t": v.ID, "sig": "api(" + mode + "):" + sig, "err": errText, "pre": pre, "uses": uses})
+	tr.Emit(vkM{"ev": "api", "t": v.ID, "sig": "api(" + mode + "):" + sig, "err": errText, "pre": pre,
+		"kinds": kinds, "uses": uses})
 }
